@@ -2732,7 +2732,7 @@ impl Connection {
                         self.endpoint_events
                             .push_back(EndpointEventInner::ResetToken(self.path.remote, token));
                     }
-                    self.handle_peer_params(params)?;
+                    self.handle_peer_params(now, SpaceId::Handshake, params)?;
                     self.issue_first_cids(now);
                 } else {
                     // Server-only
@@ -2784,7 +2784,7 @@ impl Connection {
                             "transport parameters missing".to_owned(),
                         )
                     })?;
-                    self.handle_peer_params(params)?;
+                    self.handle_peer_params(now, SpaceId::Initial, params)?;
                     self.issue_first_cids(now);
                     self.init_0rtt();
                 }
@@ -3633,7 +3633,12 @@ impl Connection {
     }
 
     /// Handle transport parameters received from the peer
-    fn handle_peer_params(&mut self, params: TransportParameters) -> Result<(), TransportError> {
+    fn handle_peer_params(
+        &mut self,
+        now: Instant,
+        space: SpaceId,
+        params: TransportParameters,
+    ) -> Result<(), TransportError> {
         if Some(self.orig_rem_cid) != params.initial_src_cid
             || (self.side.is_client()
                 && (Some(self.initial_dst_cid) != params.original_dst_cid
@@ -3645,6 +3650,9 @@ impl Connection {
         }
 
         self.set_peer_params(params);
+        // The packet that carried the parameters has already restarted the idle timer, with the
+        // timeout in force before they were known
+        self.reset_idle_timeout(now, space);
 
         Ok(())
     }
